@@ -160,6 +160,21 @@ func checkMsg(c wireCase) error {
 	if !bytes.Equal(buf, in) {
 		return pbt.Errf("Msg.Unpack modified its input buffer")
 	}
+	// the result must not depend on what the Msg value held before (servers recycle Msg values)
+	used := usedMsg()
+	var err2 error
+	if p2, hung2 := guarded(func() { err2 = used.Unpack(in) }); hung2 || p2 != "" {
+		return pbt.Errf("Msg.Unpack into a used Msg panicked or hung: %s", p2)
+	}
+	if (err == nil) != (err2 == nil) {
+		return pbt.Errf("Msg.Unpack accepts/rejects depending on the previous content of the Msg: fresh err=%v, used err=%v", err, err2)
+	}
+	if err == nil {
+		var s1, s2 string
+		if p3, h3 := guarded(func() { s1, s2 = m.String(), used.String() }); p3 == "" && !h3 && s1 != s2 {
+			return pbt.Errf("Msg.Unpack of %d octets into a Msg that held another message leaves stale content behind:\n%s\n-- instead of --\n%s", len(in), clip(s2), clip(s1))
+		}
+	}
 	if err != nil {
 		return nil
 	}
@@ -187,6 +202,33 @@ func checkMsg(c wireCase) error {
 		return pbt.Errf("an accepted message cannot be printed/measured/copied/re-packed/truncated (hung=%v): %s", hung, p)
 	}
 	return nil
+}
+
+func clip(s string) string {
+	if len(s) > 700 {
+		return s[:700] + "…"
+	}
+	return s
+}
+
+// usedMsg returns a Msg value that already went through an Unpack of a message with records in every section.
+func usedMsg() *dns.Msg {
+	m := new(dns.Msg)
+	m.SetQuestion("old.example.", dns.TypeMX)
+	m.Answer = []dns.RR{&dns.MX{Hdr: dns.RR_Header{Name: "old.example.", Rrtype: dns.TypeMX, Class: 1, Ttl: 9}, Preference: 1, Mx: "mx.old.example."}}
+	m.Ns = []dns.RR{&dns.NS{Hdr: dns.RR_Header{Name: "old.example.", Rrtype: dns.TypeNS, Class: 1, Ttl: 9}, Ns: "ns.old.example."}}
+	m.Extra = []dns.RR{&dns.A{Hdr: dns.RR_Header{Name: "ns.old.example.", Rrtype: dns.TypeA, Class: 1, Ttl: 9}, A: []byte{192, 0, 2, 1}}}
+	m.SetEdns0(1232, true)
+	m.Rcode = dns.RcodeBadVers
+	b, err := m.Pack()
+	if err != nil {
+		panic(err)
+	}
+	u := new(dns.Msg)
+	if err := u.Unpack(b); err != nil {
+		panic(err)
+	}
+	return u
 }
 
 func checkRR(c wireCase) error {
@@ -816,7 +858,62 @@ func eachHeaderLength(emit func(hdrCase)) {
 	}
 }
 
+// every type x every small integer value in all of its integer fields x short opaque fields:
+// field-value combinations that the decoder accepts must also print, measure, copy and re-pack
+func eachSmallValue(emit func(wireCase)) {
+	types := append([]uint16{}, gen.AllTypes...)
+	for _, typ := range types {
+		layout := wm.Layout[typ]
+		for k := 0; k <= 40; k++ {
+			for _, l := range []int{0, 1, 2, 5, 6, 7} {
+				r := wm.Rec{Name: wm.Name{[]byte("x")}, Type: typ, Class: 1, TTL: uint32(k)}
+				for _, sp := range layout {
+					f := wm.Field{K: sp.K}
+					switch sp.K {
+					case wm.U8, wm.U16, wm.U32, wm.U48, wm.U64:
+						f.U = uint64(k)
+						if sp.Hint == "gwtype" || sp.Hint == "amtgwtype" {
+							f.U = uint64(k % 4)
+						}
+					case wm.NameC, wm.NameU:
+						f.N = wm.Name{[]byte("n")}
+					case wm.Str, wm.Rest, wm.L8, wm.L16:
+						f.B = bytes.Repeat([]byte{byte(k)}, l)
+					case wm.Strs:
+						f.L = [][]byte{bytes.Repeat([]byte{byte(k)}, l)}
+					case wm.IPv4:
+						f.B = []byte{byte(k), 0, 2, 1}
+					case wm.IPv6:
+						f.B = append([]byte{0x20, byte(k)}, make([]byte, 14)...)
+					case wm.Bitmap:
+						f.T = []uint16{uint16(k)}
+					case wm.GW:
+						f.U = uint64(k % 4)
+						switch f.U {
+						case 1:
+							f.B = []byte{192, 0, 2, byte(k)}
+						case 2:
+							f.B = append([]byte{0x20, 1}, make([]byte, 14)...)
+						case 3:
+							f.N = wm.Name{[]byte("g")}
+						}
+					case wm.HIPHdr:
+						f.U, f.B, f.B2 = uint64(k), bytes.Repeat([]byte{1}, l), bytes.Repeat([]byte{2}, l)
+					}
+					r.Fields = append(r.Fields, f)
+				}
+				w, err := wm.Encode(wm.Msg{ID: 1, Flags: wm.FlagQR, An: []wm.Rec{r}})
+				if err != nil {
+					continue
+				}
+				emit(wireCase{Input: w, Kind: "small-values:" + typeName(typ), Valid: true})
+			}
+		}
+	}
+}
+
 func init() {
+	pbt.RegisterEnum(pbt.Enum[wireCase]{Name: "every-type-small-values", Exhaustive: true, Each: eachSmallValue, Check: checkMsg})
 	pbt.Register(pbt.Sub[hdrCase]{Name: "rr-with-header", Weight: 20, Gen: genWithHeader, Check: checkWithHeader})
 	pbt.RegisterEnum(pbt.Enum[hdrCase]{Name: "rr-with-header-every-length", Exhaustive: true, Each: eachHeaderLength, Check: checkWithHeader})
 	pbt.RegisterEnum(pbt.Enum[wireCase]{Name: "option-and-param-body-lengths", Exhaustive: true, Each: eachContainerLength, Check: checkMsg})
